@@ -45,7 +45,8 @@ CLAIMED = {
         "worker-thread writes, process death and retries; TLC checks VisibleImpliesCorrect / ReportedFailure / RetryHeals over "
         "all fault points and interleavings (and that the protocol as found violates them). Binding: every file-system "
         "operation of a real Context.make is a fault point (OSError, death before, death after; plugin exceptions; second "
-        "faults during the retry incl. every step of removing old data); a fresh Context observes, a retry follows. TLC "
+        "faults during the retry incl. every step of removing old data), for the thread pool also under the schedule in which "
+        "every worker finishes right after the saver found its future unfinished; a fresh Context observes, a retry follows. TLC "
         "validates each recorded saver operation sequence against Storage.tla (StorageTrace.tla) and each observation against "
         "the P-level (StorageObs.tla).",
    note="Trusted: TLC, the interposer (module attributes os/shutil/open of strax.storage.files and strax.io replaced in a forked "
@@ -161,15 +162,21 @@ CLAIMED = {
    technique="TLA+-enumerated inputs + TLC trace validation of recorded save/load round trips against a nondeterministic P-level",
    design="4/C03"),
  "C16": dict(
-   text="copy_to_frontend (compressors x rechunk targets), the stand-alone strax.rechunker (compressors x target sizes x serial / thread / "
-        "process x new location / replace), rechunk-on-load (source sizes x processors x workers) and per-chunk make + "
-        "merge_per_chunk_storage for every grouping of dependency chunks are executed on real storage; source before / after and "
-        "destination are read back with the real loader and TLC judges each observation against spec/StorageRT.tla (identical rows "
-        "in order, contiguous valid chunks, same range, cuts only at written boundaries or row-free gaps, metadata consistent with "
-        "the new files, source intact unless replacement was requested); exceptions are violations.",
-   note="The specification part is the P-level predicate module StorageRT.tla shared with C03 (a StoreOps state machine over operation "
-        "sequences is future growth); bit-identity decided by the harness. One stored layout of 3-4 chunks is used as the source.",
-   technique="execution of the operation matrix on real storage + TLC-evaluated P-level (StorageRT.tla) on recorded observations",
+   text="spec/StoreOps.tla is a state machine over histories of storage operations on one data type in two data directories (make, "
+        "copy_to_frontend, stand-alone rechunker in place / to a new location, load with or without rechunk-on-load); the abstract "
+        "state is the chunk edges and compressor per location, operations choose any admissible regrouping; TLC checks "
+        "AllCopiesComplete and SourceIntact over all histories of the bound. Seeded random applicable histories are executed on real "
+        "storage; after every operation both directories are read back with the real backend (edges, row ids per chunk, chunk "
+        "metadata, compressor) and TLC validates the history against the spec (StoreOpsTrace.tla: every event is the corresponding "
+        "action and the real state is exactly the image of the abstract one). In addition the single-operation matrix - "
+        "copy_to_frontend (compressors x rechunk targets), the rechunker (compressors x target sizes x serial / thread / process x "
+        "new location / replace), rechunk-on-load (source sizes x processors x workers) and per-chunk make + merge_per_chunk_storage "
+        "for every grouping of dependency chunks - is executed and TLC judges each observation against spec/StorageRT.tla "
+        "(identical rows in order, contiguous valid chunks, same range, cuts only at written boundaries or row-free gaps, metadata "
+        "consistent with the new files, source intact unless replacement was requested); exceptions are violations.",
+   note="Histories are sampled (seeded), 3-5 operations on a 2-chunk / 6-row data type; per-chunk building + merging is covered by the "
+        "operation matrix only, not by StoreOps.tla. Bit-identity of the matrix cases is decided by the harness on the loaded arrays.",
+   technique="TLA+ state machine of storage operations model-checked by TLC + TLC trace validation of real operation histories (StoreOpsTrace.tla) + TLC-evaluated P-level (StorageRT.tla) on the operation matrix",
    design="4/C16"),
  "C14": dict(
    text="Superruns of 1..4 subruns (definition order != start order, differing chunk layouts incl. empty and zero-duration chunks) are "
